@@ -341,13 +341,16 @@ InputInfo analyseInput(const Polygons& P) {
   return in;
 }
 
-// "Collapse regime": some input edge is entirely consumed by the concave joins
-// at its two ends (a concave join with turn angle t consumes |delta|*tan(t/2)
-// of each adjacent edge). Outside this regime every translated edge keeps a
-// piece of positive length; inside it the raw offset ring re-connects across
-// vanished edges (hole closing up, part thinner than 2|delta| vanishing, notch
-// filling in). Witnesses found in this regime are keyed coarsely
-// ("offset:concave-join-collapse:...") because they share one root cause.
+// "Collapse regime": some concave join consumes at least half of an adjacent
+// input edge (a concave join with turn angle t consumes |delta|*tan(t/2) of
+// each adjacent edge, and its connector spans |delta|*sin(t) <= twice that
+// along them). Outside this regime every translated edge keeps its middle and
+// no join connector reaches past a neighbouring vertex; inside it the raw
+// offset ring re-connects across vanished or overrun edges (hole closing up,
+// part thinner than 2|delta| vanishing, notch filling in, near-straight reflex
+// corner next to a short edge). Witnesses found in this regime are keyed
+// coarsely ("offset:concave-join-collapse:...") because they share one root
+// cause (OffsetContour's concave join omits the original vertex).
 bool edgeConsumed(const InputInfo& in, double delta) {
   const ld ad = fabsl((ld)delta);
   const int sgn = delta >= 0 ? 1 : -1;
@@ -367,7 +370,7 @@ bool edgeConsumed(const InputInfo& in, double delta) {
     }
     for (size_t i = 0; i < n; i++) {
       const ld len = g2::distPt(r[i], r[(i + 1) % n]);
-      if (cons[i] + cons[(i + 1) % n] >= len * (1 - 1e-6L)) return true;
+      if (2 * std::max(cons[i], cons[(i + 1) % n]) >= len * (1 - 1e-6L)) return true;
     }
   }
   return false;
